@@ -79,7 +79,7 @@ def r1_case_fold_before_keying(ctx: Ctx) -> None:
                         folded = isinstance(anc, ast.Attribute) and anc.attr == "lower" and isinstance(parents.get(id(anc)), ast.Call)
                         ctx.check(folded, f"{fname}:{FOLDED_TOKENS[tok]} `{unparse(n)}`",
                                   f"the {FOLDED_TOKENS[tok]} text is used as a lower-case dictionary key; upper-case input needs .lower() here")
-    ctx.floor("folded_reads", 3)
+    ctx.floor("folded_reads", 2)
     on = ctx.repo.func("a816.parse.nodes", "OpcodeNode.__init__")
     st = [n for n in walk_no_nested(on.node) if isinstance(n, ast.Assign) and unparse(n.targets[0]) == "self.opcode"]
     ctx.check(len(st) == 1 and unparse(st[0].value) == f"{on.params()[1]}.lower()", "OpcodeNode.__init__:mnemonic", "the mnemonic is lower-cased before it keys the opcode table")
